@@ -3,6 +3,7 @@
 package main
 
 import (
+	"fmt"
 	"net/http"
 	"net/http/httptest"
 	"regexp"
@@ -149,44 +150,62 @@ func runC15(c *ctx) {
 	hostile := []string{`"><script>alert(1)</script>`, `javascript:alert(1)`, `'onmouseover='x`, `</a><img src=x onerror=y>`, `%22%3E%3Cscript%3E`, "\"\n<b>", "ABSFORM:javascript", "ABSFORM:data", "ABSFORM:vbscript"}
 	hrefRe := regexp.MustCompile(`href="([^"]*)"`)
 	for _, hs := range hostile {
-		for _, ep := range []string{"/oauth2/callback", "/oauth2/logout/callback", "/oauth2/login"} {
-			b := newBrowser()
-			var resp *response
-			hdr := http.Header{"X-Correlation-Id": {hs}, "X-Request-Id": {hs}, "Referer": {"http://wonderwall/" + hs}}
-			target := "http://wonderwall" + ep + "?state=" + urlQueryEscape(hs) + "&redirect=" + urlQueryEscape(hs) + "&error=" + urlQueryEscape(hs)
-			if strings.HasPrefix(hs, "ABSFORM:") {
-				// absolute-form request target (RFC 9112 §3.2.2) with a script scheme: whatever the error page links to must not carry it
-				target = strings.TrimPrefix(hs, "ABSFORM:") + "://wonderwall" + ep + "?state=x&error=y&%0aalert(1)"
-			}
-			for k := 0; k < 6; k++ {
-				req, ok := safeRequest("GET", target)
-				if !ok {
-					break
+		for _, ep := range []string{"/oauth2/callback", "/oauth2/logout/callback", "/oauth2/login", "/oauth2/logout"} {
+			for _, variant := range []string{"", "nonnav", "otherhost"} { // otherhost: no configured ingress matches -> EVERY interactive endpoint takes the error path (retry link = the request itself)
+				nonnav := variant == "nonnav"
+				host := "wonderwall"
+				if variant == "otherhost" {
+					host = "x.example"
 				}
-				_ = req
-				resp = b.do(rp, "GET", target, hdr)
-				if resp.Status != 307 {
-					break
+				b := newBrowser()
+				var resp *response
+				hdr := http.Header{"X-Correlation-Id": {hs}, "X-Request-Id": {hs}, "Referer": {"http://wonderwall/" + hs}}
+				if nonnav {
+					hdr.Set("Sec-Fetch-Mode", "cors")
+					hdr.Set("Sec-Fetch-Dest", "empty")
 				}
-			}
-			if resp == nil || !strings.Contains(resp.Body, "<html") {
-				continue
-			}
-			bad := ""
-			low := strings.ToLower(resp.Body)
-			for _, needle := range []string{"<script>alert", "<img src=x", "onmouseover='x", "<b>"} {
-				if strings.Contains(low, needle) {
-					bad = "raw:" + needle
+				target := "http://" + host + ep + "?state=" + urlQueryEscape(hs) + "&redirect=" + urlQueryEscape(hs) + "&error=" + urlQueryEscape(hs)
+				if strings.HasPrefix(hs, "ABSFORM:") {
+					// absolute-form request target (RFC 9112 §3.2.2) with a script scheme: whatever the error page links to must not carry it
+					target = strings.TrimPrefix(hs, "ABSFORM:") + "://" + host + ep + "?state=x&error=y&%0aalert(1)"
 				}
-			}
-			for _, m := range hrefRe.FindAllStringSubmatch(resp.Body, -1) {
-				v := strings.ToLower(strings.TrimSpace(m[1]))
-				if !(strings.HasPrefix(v, "/") && !strings.HasPrefix(v, "//") || v == "http://wonderwall" || v == "#zgotmplz") {
-					bad = "href:" + m[1]
+				bad := ""
+				for k := 0; k < 6; k++ {
+					if _, ok := safeRequest("GET", target); !ok {
+						break
+					}
+					resp = b.do(rp, "GET", target, hdr)
+					if resp.Status != 307 {
+						break
+					}
+					// the automatic retry must point back into this origin's own endpoints: a path, never a scheme or another authority
+					if l := strings.ToLower(strings.TrimSpace(resp.Location)); !(strings.HasPrefix(l, "/") && !strings.HasPrefix(l, "//") && !strings.HasPrefix(l, "/\\")) {
+						bad = "retryloc:" + resp.Location
+					}
 				}
+				if resp == nil {
+					continue
+				}
+				html := strings.Contains(resp.Body, "<html")
+				low := strings.ToLower(resp.Body)
+				for _, needle := range []string{"<script>alert", "<img src=x", "onmouseover='x", "<b>"} {
+					if strings.Contains(low, needle) {
+						bad = "raw:" + needle
+					}
+				}
+				for _, m := range hrefRe.FindAllStringSubmatch(resp.Body, -1) {
+					if !html {
+						break // the stub body net/http writes for a redirect is not wonderwall's page; its Location is C04's subject
+					}
+					v := strings.ToLower(strings.TrimSpace(m[1]))
+					if !(strings.HasPrefix(v, "/") && !strings.HasPrefix(v, "//") || v == "http://wonderwall" || v == "#zgotmplz") {
+						bad = "href:" + m[1]
+					}
+				}
+				c.count(fmt.Sprintf("errpage:html=%v,status=%d", html, resp.Status))
+				c.emit("errpage", "ep", hx(ep), "hostile", hx(hs), "variant", variant, "html", html, "status", resp.Status, "bad", hx(bad),
+					"nocache", strings.Contains(resp.Header.Get("Cache-Control"), "no-store") || strings.Contains(resp.Header.Get("Cache-Control"), "no-cache"))
 			}
-			c.emit("errpage", "ep", hx(ep), "hostile", hx(hs), "status", resp.Status, "bad", hx(bad),
-				"nocache", strings.Contains(resp.Header.Get("Cache-Control"), "no-store") || strings.Contains(resp.Header.Get("Cache-Control"), "no-cache"))
 		}
 	}
 }
